@@ -217,7 +217,13 @@ func decJobs(ctx *core.Ctx) ([]*job, []foreignLine, error) {
 		case 0:
 			add("rl", "indep", 0, predP{}, d, codecs.RunLengthEncode(d))
 		case 1:
-			add("ah", "indep", 0, predP{}, d, codecs.ASCIIHexEncode(d))
+			if k%14 == 1 {
+				add("ah", "indep", 0, predP{}, d, codecs.ASCIIHexEncode(d))
+			} else {
+				w := []int{1, 3, 63, 64, 75, 76, 255, 77}[r.Intn(8)]
+				ws := []string{" ", "\n", "\r\n", "\t", "\f", "\x00"}[r.Intn(6)]
+				add("ah", "indep-wrapped", 0, predP{}, d, codecs.ASCIIHexEncodeWrapped(d, w, ws, r.Intn(2) == 0))
+			}
 		case 2:
 			add("a85", "indep", 0, predP{}, d, codecs.ASCII85Encode(d))
 		case 3:
